@@ -115,6 +115,7 @@ class Result:
         self._sample_cap = 6
         self._per_mech: dict[str, int] = {}
         self._known_open = None
+        self._t_first_violation = None
 
     def count(self, key: str, n: int = 1) -> None:
         self.counters[key] = self.counters.get(key, 0) + n
@@ -135,7 +136,10 @@ class Result:
 
     def violation(self, mechanism: str, detail: str, case=None) -> None:
         # recorded findings do not count towards the early-stop budget of a shard
-        self.count("known_finding_hits" if self._known(mechanism) else "violations_raw")
+        known = self._known(mechanism)
+        self.count("known_finding_hits" if known else "violations_raw")
+        if not known and self._t_first_violation is None:
+            self._t_first_violation = time.monotonic()
         # keep at most 4 witnesses per mechanism and shard, but always count
         self._per_mech[mechanism] = self._per_mech.get(mechanism, 0) + 1
         if self._per_mech[mechanism] <= 4 and len(self.violations) < 400:
@@ -146,7 +150,10 @@ class Result:
     def enough(self, n: int = 5) -> bool:
         """True once this shard has recorded so many violations that exploring further only costs time
         (blocked operations are expensive to witness); loops should stop then."""
-        return self.counters.get("violations_raw", 0) >= n
+        if self.counters.get("violations_raw", 0) >= n:
+            return True
+        # ... or once 40 s have passed since the first violation (hangs are the expensive kind of witness)
+        return self._t_first_violation is not None and time.monotonic() - self._t_first_violation > 40
 
     def sig(self, s) -> None:
         self.signatures.add(h64(s))
@@ -269,10 +276,8 @@ def run_shards(modname: str, specs: list[dict], timeout: float, par: int = NCPU,
     try:
         expired = run_batch(list(range(len(specs))), par)
         if expired and not os.environ.get("VERIF_NO_RETRY"):
-            expired2 = []
-            for i in expired:
-                expired2 += run_batch([i], 1)
-            expired = expired2
+            # re-run without the load of the full set (a few at a time keeps a broken tree from costing hours)
+            expired = run_batch(expired, 4)
         for i in expired:
             r = Result()
             tail = _tail(os.path.join(tmpdir, f"err{i}.txt"))
